@@ -45,6 +45,10 @@ type meekServer struct {
 	// received: it was)
 	dropAtReq int
 	dropped   bool
+	// cutBodyAtReq > 0: the answer to that request is cut inside its body (the
+	// header announces n bytes, fewer arrive, the connection ends); for the
+	// server the whole body has gone out
+	cutBodyAtReq int
 }
 
 func (m *meekServer) serve(name string, conn *simnet.Conn) {
@@ -115,6 +119,16 @@ func (m *meekServer) serve(name string, conn *simnet.Conn) {
 		out := make([]byte, n)
 		patFill(1, m.downSent, out)
 		hdr := fmt.Sprintf("HTTP/1.1 %d X\r\nContent-Length: %d\r\nContent-Type: application/octet-stream\r\n\r\n", status, n)
+		if m.cutBodyAtReq > 0 && m.requests >= m.cutBodyAtReq && !m.dropped && n >= 2 {
+			m.dropped = true
+			k := 1 + c.T.Draw("cutbody.at", n-1)
+			c.S.Count("fault.connection-dies-inside-response-body", 1)
+			conn.Write(append([]byte(hdr), out[:k]...))
+			m.downSent += int64(n)
+			m.inFlight--
+			conn.Close()
+			return
+		}
 		if _, err := conn.Write(append([]byte(hdr), out...)); err != nil {
 			m.inFlight--
 			return
@@ -161,10 +175,15 @@ func runC16(c *harness.Ctx) {
 	if t.Draw("close", 2) == 1 {
 		closeAt = t.Draw("close.at", 4000) // ms
 	}
-	if closeAt < 0 && t.Draw("drop", 4) == 3 {
-		srv.dropAtReq = 1 + t.Draw("drop.at", 6)
+	if closeAt < 0 {
+		switch t.Draw("drop", 6) {
+		case 3:
+			srv.dropAtReq = 1 + t.Draw("drop.at", 6)
+		case 4, 5:
+			srv.cutBodyAtReq = 1 + t.Draw("cutbody.req", 6)
+		}
 	}
-	c.Info["drop_after_request"] = srv.dropAtReq
+	c.Info["drop_after_request"], c.Info["cut_body_of_answer"] = srv.dropAtReq, srv.cutBodyAtReq
 	c.Info["up_writes"], c.Info["down_total"], c.Info["resp_kind"], c.Info["close_at_ms"], c.Info["front"] = upPlan, srv.downTotal, respKind, closeAt, front
 	policy := []int{simnet.ChunkBurst, simnet.ChunkAll, simnet.ChunkMSS, simnet.ChunkRand, simnet.ChunkBoundary}[t.Draw("chunk", 5)]
 	lat := []time.Duration{0, 0, time.Millisecond, 30 * time.Millisecond}[t.Draw("lat", 4)]
@@ -327,7 +346,7 @@ func runC16(c *harness.Ctx) {
 		// delivered twice (checked request by request above) - and nothing may
 		// hang
 		if stop == sim.StopTime {
-			c.Violate("C16/hangs-after-connection-loss", "the connection died after the server had consumed request %d; 20 virtual minutes later writer done=%v reader done=%v", srv.dropAtReq, wrDone, rdDone)
+			c.Violate("C16/hangs-after-connection-loss", "the connection died (after request %d was consumed / inside the answer to request %d); 20 virtual minutes later writer done=%v reader done=%v", srv.dropAtReq, srv.cutBodyAtReq, wrDone, rdDone)
 		}
 		if srv.upGot > wrOff+196608 {
 			c.Violate("C16/upstream-invented", "server received %d bytes, application wrote %d", srv.upGot, wrOff)
